@@ -190,7 +190,12 @@ class ArraySchemaBackend(PandasSchemaBackend):
                 parser_index,
                 *parser_args,
             )
-            check_obj = result.parser_output
+            if is_field(check_obj):
+                check_obj = result.parser_output
+            else:
+                # keep the dataframe (groupby checks of the column need its
+                # other columns): only the parsed column is replaced
+                check_obj[schema.name] = result.parser_output
             parser_results.append(result)
         return check_obj
 
